@@ -187,6 +187,14 @@ func c31MakeWire(b *c31Body) c31Wire {
 		}
 		zs.Close()
 		w = c31Wire{wire: zb.Bytes(), hdr: "zstd", dec: len(p), win: c31ZstdWindow(zb.Bytes()), isZstd: true}
+	case "zstdframes": // two complete frames back to back, each declaring its own (smaller) content size
+		h := len(p) / 2
+		z1, z2 := c31ZEnc.EncodeAll(p[:h], nil), c31ZEnc.EncodeAll(p[h:], nil)
+		win := c31ZstdWindow(z1)
+		if w2 := c31ZstdWindow(z2); w2 > win {
+			win = w2
+		}
+		w = c31Wire{wire: append(append([]byte(nil), z1...), z2...), hdr: "zstd", dec: len(p), win: win, isZstd: true}
 	case "zstdbad":
 		w = c31Wire{wire: p, hdr: "zstd", dec: -1, isZstd: true}
 	case "gzip":
@@ -1031,9 +1039,12 @@ func c31Gen(r *rand.Rand, n int, tier string) []c31In {
 		}
 	}
 	// --- zstd around both caps ---
-	for _, kind := range []string{"zstd", "zstdstream", "zstdbad"} {
+	for _, kind := range []string{"zstd", "zstdstream", "zstdbad", "zstdframes"} {
 		for _, form := range []string{"", "chunked"} {
 			b := &c31Body{Kind: kind, N: 1500, Form: form}
+			if kind == "zstdframes" {
+				b.N = 3000 // each frame's window (content size) stays below the cap the sum crosses
+			}
 			w := wireLen(b)
 			l := int64(len(c31Payload(b.N)))
 			for _, d := range []int64{-1, 0, 1} {
@@ -1120,7 +1131,7 @@ func c31Gen(r *rand.Rand, n int, tier string) []c31In {
 }
 
 func c31RandomBody(r *rand.Rand) *c31Body {
-	kinds := []string{"id", "id", "id", "other", "zstd", "zstd", "zstdstream", "zstdbad", "gzip", "gzipstored", "gzipfake"}
+	kinds := []string{"id", "id", "id", "other", "zstd", "zstd", "zstdstream", "zstdbad", "zstdframes", "gzip", "gzipstored", "gzipfake"}
 	b := &c31Body{Kind: kinds[r.Intn(len(kinds))], N: []int{0, 8, 100, 700, 1100, 1500, 2400}[r.Intn(7)], Hdr: []string{"ZSTD", "br", "x-zstd", "deflate"}[r.Intn(4)]}
 	b.Form = []string{"", "", "chunked", "chunked", "trunc", "chunktrunc"}[r.Intn(6)]
 	return b
